@@ -688,6 +688,15 @@ def r4_result(ctx, chk, rule="C07.4", order_matters=True):
                 return
         chk.undecided(rule, f.where(ret), "final states are removed from the visited collection by `%s`; coverage of all finals not established" % norm_stmt(removals[0]))
     else:
+        # whatever the construction: when the final-state list is used for nothing but starting the searches, nothing can keep a final
+        # state out of the result - and a final state that precedes another final state is discovered by that state's search
+        uses = [n for n in walk_no_nested_defs(f.node) if isinstance(n, ast.Name) and n.id == s.finals and isinstance(n.ctx, ast.Load)]
+        only_roots = bool(uses) and all(isinstance(getattr(n, "parent", None), ast.For) and n.parent.iter is n for n in uses)
+        if only_roots and s.root_loop is not None:
+            chk.violation(rule, f.where(ret), "`%s` is only ever iterated to start the searches: nothing removes the final states from the result, so a final state from which another "
+                          "final state is reachable is returned as if it were non-final (and which ones depends on the order of the list)" % s.finals,
+                          expected="[x for x in visited if x not in %s]" % s.finals, found=src(val)[:80], construct="reverse_dfs result filter missing")
+            return
         chk.undecided(rule, f.where(ret), "result construction `%s` not recognised as a filter of the visited collection" % src(compr))
 
 
